@@ -165,6 +165,7 @@ MSGS = {
     "denmA": lambda: denm(2001, 1, 15, True, lane=-1, temperature=-5),
     "denmB": lambda: denm(2002, 2, 5, False, lane=0, temperature=0),
     "vamA": lambda: vam(3001, 1),
+    "vamB": lambda: vam(3002, 1, gdt=90, speed=200),   # faster and higher id than vamA (speed 120): two-key orders disagree between keys
     "cpmA": lambda: cpm(4001),
 }
 
